@@ -393,7 +393,11 @@ func (c *ClientConn) SendUpstreamMetadata(ctx context.Context, msg *message.Upst
 	if err != nil {
 		return nil, err
 	}
-	return res.(*message.UpstreamMetadataAck), nil
+	ack, ok := res.(*message.UpstreamMetadataAck)
+	if !ok {
+		return nil, errors.Errorf("invalid message %T", res)
+	}
+	return ack, nil
 }
 
 func (c *ClientConn) sendPing() (*message.Pong, error) {
@@ -405,7 +409,11 @@ func (c *ClientConn) sendPing() (*message.Pong, error) {
 	if err != nil {
 		return nil, err
 	}
-	return resp.(*message.Pong), nil
+	pong, ok := resp.(*message.Pong)
+	if !ok {
+		return nil, errors.Errorf("invalid message %T", resp)
+	}
+	return pong, nil
 }
 
 // SubscribeUpstreamChunkAckは、UpstreamChunkAckを待ち受けます。
@@ -452,7 +460,10 @@ func (c *ClientConn) SendUpstreamOpenRequest(ctx context.Context, req *message.U
 		return nil, err
 	}
 
-	res := resp.(*message.UpstreamOpenResponse)
+	res, ok := resp.(*message.UpstreamOpenResponse)
+	if !ok {
+		return nil, errors.Errorf("invalid message %T", resp)
+	}
 	c.openUpstream(ctx, req.QoS, res.AssignedStreamID, res.AssignedStreamIDAlias)
 
 	return res, nil
@@ -468,7 +479,10 @@ func (c *ClientConn) SendUpstreamResumeRequest(ctx context.Context, req *message
 		return nil, err
 	}
 
-	res := resp.(*message.UpstreamResumeResponse)
+	res, ok := resp.(*message.UpstreamResumeResponse)
+	if !ok {
+		return nil, errors.Errorf("invalid message %T", resp)
+	}
 
 	c.openUpstream(ctx, qoS, req.StreamID, res.AssignedStreamIDAlias)
 
@@ -495,11 +509,15 @@ func (c *ClientConn) SendUpstreamCloseRequest(ctx context.Context, req *message.
 	if err != nil {
 		return nil, err
 	}
+	res, ok := resp.(*message.UpstreamCloseResponse)
+	if !ok {
+		return nil, errors.Errorf("invalid message %T", resp)
+	}
 	c.upstreams.mu.Lock()
 	defer c.upstreams.mu.Unlock()
 	alias, ok := c.upstreams.aliases[req.StreamID]
 	if !ok {
-		return resp.(*message.UpstreamCloseResponse), nil
+		return res, nil
 	}
 
 	delete(c.upstreams.aliases, req.StreamID)
@@ -512,7 +530,7 @@ func (c *ClientConn) SendUpstreamCloseRequest(ctx context.Context, req *message.
 		delete(c.upstreams.messageWriters, alias)
 	}
 
-	return resp.(*message.UpstreamCloseResponse), nil
+	return res, nil
 }
 
 // SubscribeDownstreamChunkは、指定したストリームIDエイリアス、QoSのDownstreamChunkを待ち受けます。
@@ -595,7 +613,10 @@ func (c *ClientConn) SendDownstreamResumeRequest(ctx context.Context, req *messa
 	if err != nil {
 		return nil, err
 	}
-	resp := res.(*message.DownstreamResumeResponse)
+	resp, ok := res.(*message.DownstreamResumeResponse)
+	if !ok {
+		return nil, errors.Errorf("invalid message %T", res)
+	}
 
 	c.downstreams.mu.Lock()
 	defer c.downstreams.mu.Unlock()
@@ -611,7 +632,10 @@ func (c *ClientConn) SendDownstreamOpenRequest(ctx context.Context, req *message
 	if err != nil {
 		return nil, err
 	}
-	resp := res.(*message.DownstreamOpenResponse)
+	resp, ok := res.(*message.DownstreamOpenResponse)
+	if !ok {
+		return nil, errors.Errorf("invalid message %T", res)
+	}
 
 	c.downstreams.mu.Lock()
 	defer c.downstreams.mu.Unlock()
@@ -627,12 +651,16 @@ func (c *ClientConn) SendDownstreamCloseRequest(ctx context.Context, req *messag
 	if err != nil {
 		return nil, err
 	}
+	res, ok := resp.(*message.DownstreamCloseResponse)
+	if !ok {
+		return nil, errors.Errorf("invalid message %T", resp)
+	}
 	c.downstreams.mu.Lock()
 	defer c.downstreams.mu.Unlock()
 
 	alias, ok := c.downstreams.aliases[req.StreamID]
 	if !ok {
-		return resp.(*message.DownstreamCloseResponse), nil
+		return res, nil
 	}
 	delete(c.downstreams.aliases, req.StreamID)
 
@@ -652,7 +680,7 @@ func (c *ClientConn) SendDownstreamCloseRequest(ctx context.Context, req *messag
 		delete(c.downstreams.metadata, alias)
 	}
 
-	return resp.(*message.DownstreamCloseResponse), nil
+	return res, nil
 }
 
 // SendDownstreamDataPointsAckは、DownstreamMetadataAckを送信します。
